@@ -89,3 +89,19 @@ def branch_scoped_methods(F):
             if im and im["self_head"] in CACHE_HEADS and not im["trait"]:
                 out.append((f, im))
     return out
+
+
+def roots(F):
+    """analysis roots: every exported fn/method and every method of a trait impl (Cache, Clone, Drop, Iterator, From...)"""
+    out = []
+    for f in F.doc["fns"]:
+        if f["kind"] not in ("Fn", "AssocFn"):
+            continue
+        im = F.impl_of(f)
+        if f.get("exported") or (im is not None and im["trait"]):
+            if f.get("parent_kind") == "Trait":
+                continue  # trait method declarations (no body of their own unless provided)
+            if F.body(f["path"]) is None:
+                continue
+            out.append(f)
+    return out
